@@ -126,7 +126,7 @@ theorem compressLoop_spec {T : Tun} (hT : TunOK T) (F : SecFns ρ) (hra : Bool) 
       obtain ⟨hc, hrest⟩ := hinv
       obtain ⟨hcne, hrne⟩ := AllNE_cons.1 hne
       simp only [sumItems_cons, sumCap_cons] at hr hm
-      simp only [compressLoop]
+      simp only [compressLoop, sortIf0, nextOf, ctrGrow, ctrAfter]
       split
       · rename_i hfull
         simp only [Compactor.numItems, ge_iff_le] at hfull
@@ -145,6 +145,7 @@ theorem compressLoop_spec {T : Tun} (hT : TunOK T) (F : SecFns ρ) (hra : Bool) 
         cases rest with
         | nil =>
           -- top level: grow
+          simp only [List.isEmpty_nil, if_true, List.tail_nil]
           have hnx := mk'_CInv hT F hra (h + 1) k hk
           have sp := compact_spec hT F acc.peek hc1 hs1 hnx hfull1
           have hnxcap := compact_nxt_nomCap T F (if h = 0 then c.sort else c) (Compactor.mk' T F hra (h + 1) k) acc.peek
@@ -165,7 +166,6 @@ theorem compressLoop_spec {T : Tun} (hT : TunOK T) (F : SecFns ρ) (hra : Bool) 
             rw [this, Nat.pow_succ]
             have e := pow_step r.cur.items.length c.items.length r.num 0 (2 ^ h) (by have := sp.lenCur; omega)
             rw [hlenN]; simp only [Nat.zero_add, Nat.zero_mul, Nat.add_zero] at e ⊢; exact e
-          simp only [List.isEmpty_nil, if_true, List.tail_nil]
           split
           · -- lazy break
             refine ⟨⟨sp.cur, sp.nx, trivial⟩, ?_, ?_, ?_, htw, by simp, ?_, ?_, by simp, by simp⟩
@@ -189,6 +189,7 @@ theorem compressLoop_spec {T : Tun} (hT : TunOK T) (F : SecFns ρ) (hra : Bool) 
               simp only [List.length_cons] at h1
               exact hnn (List.length_eq_zero_iff.1 (by omega))
         | cons nx rest' =>
+          simp only [List.isEmpty_cons, Bool.false_eq_true, if_false, List.tail_cons]
           obtain ⟨hnx, hrest'⟩ := hrest
           obtain ⟨hnxne, hrne'⟩ := AllNE_cons.1 hrne
           have sp := compact_spec hT F acc.peek hc1 hs1 hnx hfull1
@@ -207,7 +208,6 @@ theorem compressLoop_spec {T : Tun} (hT : TunOK T) (F : SecFns ρ) (hra : Bool) 
             rw [Nat.pow_succ, sp.lenNxt]
             have e := pow_step r.cur.items.length c.items.length r.num nx.items.length (2 ^ h) (by have := sp.lenCur; omega)
             omega
-          simp only [List.isEmpty_cons, Bool.false_eq_true, if_false, List.tail_cons]
           split
           · refine ⟨⟨sp.cur, sp.nx, hrest'⟩, ?_, ?_, ?_, htw, by simp, ?_, ?_, by simp, by simp⟩
             · exact AllNE_cons.2 ⟨sp.curNe, AllNE_cons.2 ⟨hnxtne, hrne'⟩⟩
